@@ -735,6 +735,16 @@ func (m *Mirror) handleFuturePrevoteProofs(
 		)
 	}
 
+	if len(curPrevotesSparse.PubKeyHash) > 0 && string(curPrevotesSparse.PubKeyHash) != p.PubKeyHash {
+		// The round store already holds future prevotes for this round
+		// that were verified against another validator set
+		// (for a later height, the set is only known once the height before it commits,
+		// so the set a message names is all we can go by).
+		// Their signatures cannot be merged with ones made by this message's set.
+		// Leave what is stored alone, and treat this message as unverifiable for now.
+		return tmconsensus.HandleVoteProofsFutureUnverified
+	}
+
 	// Convert the prevotes we just loaded from storage,
 	// into a set of full proofs, so that we can merge in the new sparse proofs.
 	fullMap, err := curPrevotesSparse.ToFullPrevoteProofMap(
@@ -1112,6 +1122,12 @@ func (m *Mirror) handleFuturePrecommitProofs(
 		curPrecommitsSparse.BlockSignatures = make(
 			map[string][]gcrypto.SparseSignature, len(p.Proofs),
 		)
+	}
+
+	if len(curPrecommitsSparse.PubKeyHash) > 0 && string(curPrecommitsSparse.PubKeyHash) != p.PubKeyHash {
+		// As with future prevotes: what the round store holds for this round
+		// was verified against another validator set, so it cannot be merged with this message.
+		return tmconsensus.HandleVoteProofsFutureUnverified
 	}
 
 	// Convert the precommits we just loaded from storage,
